@@ -277,6 +277,8 @@ def build():
          ensures=[("balance = pricing-table yield, capped at the maximum", "U() == " + CAP),
                   ("bonus is never negative", "bonus >= 0"),
                   ("tier position advanced by n", "implies(price_tiering, self.credit_units_for_pricing_tiers == pos(t0, n))"),
+                  ("without tiering the tier position does not advance",
+                   "implies(not price_tiering, self.credit_units_for_pricing_tiers == t0 % self.pricing_tiers_wrap_around)"),
                   ("max_credits_reached iff the cap cut something off",
                    "posted_max_reached() == (1 if (M() > 0 and old(U()) + n + bonus > M()) else 0)")],
          raises={"AssertionError": "int(credit_units) != credit_units"},
@@ -286,8 +288,42 @@ def build():
     C.fn("Credits.add_credit", params=dict(price_tiering=Bool),
          lets={"n": "self.credit_units_per_game", "t0": "self.credit_units_for_pricing_tiers",
                "bonus": "ts(t0, n) if price_tiering else 0"},
-         ensures=[("one game price added (plus tier bonus), capped", "U() == " + CAP)],
+         ensures=[("one game price added (plus tier bonus), capped", "U() == " + CAP),
+                  ("without tiering the tier position does not advance",
+                   "implies(not price_tiering, self.credit_units_for_pricing_tiers == t0 % self.pricing_tiers_wrap_around)")],
+         defs=["tier_def(t0, 0)"],
          modifies=[MV, "self.credit_units_for_pricing_tiers"], raises={})
+
+    # ---- the three sources of credits
+    C.fn("Credits._credit_switch_callback", params=dict(value=Num, audit_class=Str, key_name=Opt(Str)),
+         requires=[INIT, ("coin value >= 0", "value >= 0"),
+                   ("coin label does not alias the default audit keys",
+                    "key_name is None or (key_name != '1 Total' and key_name != '2 Total')")],
+         lets={"n": "int(value / self.credit_unit)", "t0": "self.credit_units_for_pricing_tiers",
+               "bonus": "ts(t0, int(value / self.credit_unit))"},
+         defs=["tier_def(t0, 0)"],
+         ensures=[("money buys its value in credit units plus the pricing-tier bonus, capped", "U() == " + CAP),
+                  ("earnings audits equal the coins accepted: one coin, its value",
+                   "earn('1 Total Coins ' + audit_class) == old(earn('1 Total Coins ' + audit_class)) + 1 and "
+                   "earn('2 Total Earnings ' + audit_class) == old(earn('2 Total Earnings ' + audit_class)) + value")],
+         raises={"AssertionError": "int(value / self.credit_unit) != value / self.credit_unit"},
+         modifies=[MV, "self.credit_units_for_pricing_tiers", "self.earnings", "self.delay.pending"])
+    C.fn("Credits._credit_event_callback", params=dict(credits_value=TEMPLATE_NUM, audit_class=Str),
+         requires=[INIT, ("award >= 0", "credits_value.value >= 0")],
+         lets={"n": "int(credits_value.value * self.credit_units_per_game)", "bonus": "0",
+               "t0": "self.credit_units_for_pricing_tiers"},
+         ensures=[("awarded credits are added at face value (no pricing-tier bonus), capped", "U() == " + CAP),
+                  ("awards do not advance the pricing tiers",
+                   "self.credit_units_for_pricing_tiers == t0 % self.pricing_tiers_wrap_around")],
+         raises={"AssertionError": "int(credits_value.value * self.credit_units_per_game) != "
+                                   "credits_value.value * self.credit_units_per_game"},
+         modifies=[MV, "self.credit_units_for_pricing_tiers", "self.earnings", "self.delay.pending"])
+    C.fn("Credits._service_credit_callback", requires=[INIT],
+         lets={"n": "self.credit_units_per_game", "bonus": "0", "t0": "self.credit_units_for_pricing_tiers"},
+         ensures=[("a service credit is exactly one game price, no bonus, capped", "U() == " + CAP),
+                  ("service credits do not advance the pricing tiers",
+                   "self.credit_units_for_pricing_tiers == t0 % self.pricing_tiers_wrap_around")],
+         modifies=[MV, "self.credit_units_for_pricing_tiers", "self.earnings"], raises={})
 
     # ---- spending credits -----------------------------------------------------------------
     C.fn("Credits._player_added",
